@@ -30,7 +30,17 @@ class ErrC(ErrA):
     pass
 
 
-ERR_CLASSES = {"ErrA": ErrA, "ErrB": ErrB, "ErrC": ErrC, "ScriptedError": ScriptedError}
+class FalsyErr(ScriptedError):
+    """an exception object whose truth value is False (e.g. an aggregate error with no members)"""
+
+    def __bool__(self):
+        return False
+
+    def __len__(self):
+        return 0
+
+
+ERR_CLASSES = {"ErrA": ErrA, "ErrB": ErrB, "ErrC": ErrC, "ScriptedError": ScriptedError, "FalsyErr": FalsyErr}
 
 
 def sub_of(x):
